@@ -54,6 +54,13 @@ def sideband (records : List (List Char × List Char)) (name : List Char) : Opti
     | some m => some m
     | none => if r.1 == name then some r.2 else none
 
+/-- the `recordSideband` calls the callback of `runTestCasesForServer` makes for the responses of
+a reference client: every message of `ClientResponseResult.feedback`, as it is, for the test case
+the response names -/
+def clientRecords : List (List Char × List (List Char)) → List (List Char × List Char)
+  | [] => []
+  | (nm, msgs) :: rest => msgs.map (fun m => (nm, m)) ++ clientRecords rest
+
 /-- a line reader that cannot hold more than `max` characters of a line: everything from the
 first longer line on is lost -/
 def limitedLines (max : Nat) (stream : List Char) : List (List Char) :=
